@@ -9,7 +9,7 @@ TEXT = {
  "C02": ("Lean theorem C02_find over every trace in which each worker scans its chunks in order and the evaluated prefix contains the least found position: result = least matching source position; tie by controlled schedules (late worker holds chunk 0).", "§6 C02"),
  "C03": ("Lean theorems C03_reduce (associative+commutative op, any tiling, any thread order) and C03_select (by-key selections pick an extremal survivor).", "§6 C03"),
  "C04": ("Lean theorem C04_count / C04_for_each for every tiling and thread order, chunk-1 and chunked paths incl. the nested loop of filtermap_fil_cnt.", "§6 C04"),
- "C05": ("Lean theorems on the logged stream algebra: event multiset of every chain = sequential (32 site lemmas, induction over chains).", "§6 C05"),
+ "C05": ("Lean theorems on the logged stream algebra: event multiset of every chain = sequential (32 site lemmas, induction over chains), C05_term_events for the terminal closures, C05_kernel_step for the kernels' per-element work, C05_mutex / C05_yield_once on the transcribed ticket protocol. Tie: the model's (stage,arg) invocation multiset is compared with the recorded real invocations on every case (digest), plus the std oracle.", "§6 C05"),
  "C06": ("Lean theorem C06_collect_into per branch of the three ParCollectIntoCore impls: result = pre ++ sequential result.", "§6 C06"),
  "C07": ("Lean theorem C07_collect_x: fragments appended in spawn order are a permutation of the sequential result for every tiling.", "§6 C07"),
  "C08": ("Lean theorems C08_max_threads, C08_spawn_bound, C08_at_most_n_workers: under Max(n) at most n workers for every has_more stream and every lag>=1; sequential entry points ignore the runner. Tie: do_spawn / calc_num_threads exactly (L0) and real thread counts from worker hooks. One known finding (reduce operator also runs on the caller).", "§6 C08"),
@@ -18,7 +18,7 @@ TEXT = {
  "C11": ("Lean theorems C11_resolved, C11_runner, C11_next_chunk, C11_workers: Exact(c) reaches every worker ever spawned, for every has_more stream. Tie: calc_chunk_size/next_chunk_size exactly (L0), chunk handed to each real worker, aligned blocks and next() bursts observed.", "§6 C11"),
  "C12": ("Lean theorem C12_params by induction over arbitrary op lists from all 32 site lemmas + setters; C12_ofNat; C12_is_sequential. Tie: params()/is_sequential() after every call of every chain x setter position (exhaustive over the finite site family).", "§6 C12"),
  "C13": ("Lean theorem on the resource model: returned ⊎ dropped = created, no bad drop.", "§6 C13"),
- "C14": ("Lean theorem on the resource model with a panic point: outcome is panic, no bad drop.", "§6 C14"),
+ "C14": ("Lean theorems: C14_propagates / C14_evaluated_panics on a transcription of the join structure of Runner::{run,run_map,reduce} and std's scope/join/expect (any worker evaluating the panicking invocation => the call panics; C14_no_spurious_panic otherwise), C14_pred_no_sound / C14_pred_yes_full (the panic prediction compared with the real call on every case), C14_bag_unwind_no_bad on the cell-level bag model (guarded unwinding drops nothing; the pre-fix behaviour provably drops never-initialised cells).", "§6 C14"),
  "C15": ("Lean theorems C15_chunk_pos, C15_runner_total, C15_next_chunk_total, C15_spawner_terminates, C15_in_range: the settings arithmetic is total and positive for all inputs. Tie: every exported settings function compared exactly on dense grids incl. panics; end-to-end grid vs the sequential reference.", "§6 C15"),
  "C16": ("Lean theorem C16_lazy: a chain avoiding the eager sites has no construction effects; eight eager sites are known findings, measured on the real code.", "§6 C16"),
 }
